@@ -493,6 +493,24 @@ impl<Writer> MuxerBuilder<Writer> {
             }
         };
 
+        // The sample entry and the avcC/hvcC records hold these values in 16-bit fields.
+        if width > u32::from(u16::MAX) || height > u32::from(u16::MAX) {
+            return Err(MuxerError::Io(std::io::Error::new(
+                std::io::ErrorKind::InvalidInput,
+                "video dimensions must fit in 16 bits",
+            )));
+        }
+        let max_ps = usize::from(u16::MAX);
+        if sps.len() > max_ps
+            || pps.len() > max_ps
+            || vps.as_ref().map_or(false, |v| v.len() > max_ps)
+        {
+            return Err(MuxerError::Io(std::io::Error::new(
+                std::io::ErrorKind::InvalidInput,
+                "parameter sets must be shorter than 65536 bytes",
+            )));
+        }
+
         let config = FragmentConfig {
             width,
             height,
